@@ -178,9 +178,14 @@ def distance_cases(ctx):
 
 def pipeline_cases(ctx, tab):
     rng = ctx.rng
-    for k in range(ctx.n(6, 200)):
+    # one full-resolution pass of several thousand lines (a 15-minute HRPT pass has ~5400, a FRAC orbit ~36000): only in the
+    # thorough tier and when the source differs from the validated baseline (90 MB file, ~3 GB of memory, ~40 s)
+    big = [("klmLac", 5600)] if (ctx.thorough or getattr(ctx, "escalated", False)) else []
+    for k in range(-len(big), ctx.n(6, 200)):
         fmt = rng.choice(["klmGac", "podGac", "klmLac", "podLac"])
         n = 8 if fmt.endswith("Lac") else 20
+        if k < 0:
+            fmt, n = big[k]
         if fmt.startswith("klm"):
             year, sat = 2002 + rng.randint(0, 3), "noaa16"
         else:
@@ -214,8 +219,10 @@ def pipeline_cases(ctx, tab):
         corr = Fraction(repr(1.0 - 0.0334 * math.cos(2.0 * math.pi * (d - 2) / 365.25)))
         payload = {"fmt": fmt, "start": start, "n": n, "sat": sat, "stream": "pipeline"}
         nsol = 3 if fmt.startswith("klm") else 2
+        check_lines = range(n) if n <= 64 else sorted(set([0, 1, n // 2, 5460, 5461, 5462, 8191, 8192, n - 2, n - 1] +
+                                                         rng.sample(range(n), 12)) & set(range(n)))
         for chan in range(nsol):
-            for line in range(n):
+            for line in check_lines:
                 if fmt.startswith("klm") and chan == 2 and b.bitfield[line] != 1:
                     continue
                 cs = counts[line, :, chan]
